@@ -218,6 +218,10 @@ def r5(ctx, cls):
     below = ('self._current_size<=self._min_size', True) in fs
     if pool_closed:
       seen.setdefault('pool closed', []).append(len(sw) == 1 and sw[0][1:] == ('-', '1') and not acts['spawn'] and not acts['cache'])
+      # a connection that comes back to a closed pool will never be lent again: it has to be closed, not just forgotten
+      okc = len(acts['discard']) == 1 and [U(a) for a in acts['discard'][0].node.args] == [sink]
+      okc = okc or any(e.kind == 'call' and call_attr(e.node) == 'Close' and U(e.node.func.value) == sink for e in ev)
+      seen.setdefault('pool closed: connection closed', []).append(okc)
     elif sink_closed:
       seen.setdefault('dead connection', []).append(len(sw) == 1 and sw[0][1:] == ('-', '1') and len(acts['close']) == 1 and not acts['spawn'] and not acts['cache'])
     elif waiters:
@@ -230,6 +234,11 @@ def r5(ctx, cls):
       ok = len(sw) == 1 and sw[0][1:] == ('-', '1') and len(acts['discard']) == 1 and [U(a) for a in acts['discard'][0].node.args] == [sink] and not acts['cache'] and not acts['spawn']
       ok = ok and ('self._current_size<=self._min_size', False) in fs
       seen.setdefault('close above min', []).append(ok)
+  v = seen.get('pool closed: connection closed')
+  ctx.ob('C07.R2', rl, 'a connection released to a closed pool is closed', bool(v) and all(v),
+         'the pool-closed branch of _Release only decrements _current_size: lent connections that come back after the pool closed stay open for ever',
+         'once traffic stops at most min_watermark connections are retained; size must equal the live connections (the pool closes when one connection is found dead, '
+         'the other lent connections come back afterwards)')
   for k in ('placeholder', 'placeholders_excluded', 'pool closed', 'dead connection', 'waiters', 'cache', 'close above min'):
     v = seen.get(k)
     ctx.ob('C07.R5' if k not in ('pool closed', 'dead connection', 'close above min') else 'C07.R2', rl, '_Release case: %s' % k, bool(v) and all(v),
@@ -329,6 +338,28 @@ def r7(ctx, cls):
            and [U(a) for a in inner.args] == [U(e) for e in tgt.elts] and not ifs)
   ctx.ob('C07.R7', cl, 'Close: state Closed, cache flushed, every waiter offered to FailingMessageSink(ServiceClosedError)', st and fl and okf and okl,
          'state=%s flush=%s failing sink=%s loop=%s' % (st, fl, okf, okl), why)
+  # after the pool closed, nothing serves its queue any more (_Release only decrements): a request that still gets in is
+  # either given a brand new connection or queued for ever
+  g = prog.func(WM, 'WatermarkPoolSink._Get')
+  refused = False
+  for ev, ex in enum_paths(ctx, g):
+    if ex[0] != 'ret':
+      continue
+    fs = FACTS(ev)
+    closed = any(t and c.replace(' ', '') in ('self._state==ChannelState.Closed', 'self.state==ChannelState.Closed', 'self.is_closed') for c, t in fs)
+    r = [e for e in ev if e.kind == 'ret'][-1].node.value
+    if closed and r is not None and 'FailingMessageSink' in U(r) and 'ServiceClosedError' in U(r):
+      refused = True
+  ctx.ob('C07.R7', g, 'a closed pool refuses new requests at once (ServiceClosedError)', refused,
+         '_Get never looks at the pool state: after the pool closed on a dead connection a new request gets a freshly created connection, and the next one is '
+         'queued although _Release never serves the queue of a closed pool -- it is neither started nor failed',
+         'a waiting request is started as soon as a connection is released, and when the pool closes every waiting request is failed exactly once')
+  # the queue bound counts requests that are actually waiting
+  live_cnt = [n for n in ast.walk(g.node) if isinstance(n, ast.Call) and call_attr(n) == 'Any' and '_waiters' in U(g.node)]
+  ctx.ob('C07.R4', g, 'waiters that already completed (timed out while queued) do not hold a queue slot', bool(live_cnt),
+         'the admission test len(self._waiters) + 1 > max_queue_len counts raw entries: timed-out waiters stay in the deque until the next release, so a '
+         'new request is refused with MaxWaitersError although nothing is waiting',
+         'at most max_queue_len requests wait and only further ones fail with a max-waiters error, for every subset of queued requests timing out while queued')
   sp = prog.func(WM, 'WatermarkPoolSink.state')
   ctx.ob('C07.R7', sp, 'pool state is its recorded state', U(sp.node.body[-1]).replace(' ', '') == 'returnself._state', 'state changed', why, nontrivial=False)
   fc = prog.func(WM, 'WatermarkPoolSink._FlushCache')
